@@ -298,30 +298,98 @@ def gen_params():
     out.append(f"Definition p_keepalive : Z := {micros(P.KEEP_ALIVE_INTERVAL)}.  (* KEEP_ALIVE_INTERVAL = {P.KEEP_ALIVE_INTERVAL} s *)")
     out.append(f"Definition p_check_timeout : Z := {micros(A.CONNECTION_CHECK_TIMEOUT)}.  (* CONNECTION_CHECK_TIMEOUT *)")
 
-    # wait expression:  2 + n * (YncaProtocol.COMMAND_SPACING * 5)   in subunit.initialize and api._detect_available_subunits
-    def wait_shape(fn):
-        tree = ast.parse(textwrap.dedent(inspect.getsource(fn)))
+    # wait expression:  2 + n * (YncaProtocol.COMMAND_SPACING * 5)   in subunit.initialize and api._detect_available_subunits,
+    # read as an affine function  base + per_cmd * n  of the one variable it contains; the expression may sit in the
+    # wait() call, in a local assigned once, or in a helper with a single return (one level)
+    def affine(e, env):
+        """-> (a, b, var) with value a + b*var, Fractions; None if not of that form.  env: name -> expression"""
+        if isinstance(e, ast.Constant) and isinstance(e.value, (int, float)) and not isinstance(e.value, bool):
+            return (Fraction(str(e.value)), Fraction(0), None)
+        if isinstance(e, ast.Attribute) and e.attr == "COMMAND_SPACING":
+            return (Fraction(str(P.COMMAND_SPACING)), Fraction(0), None)
+        if isinstance(e, ast.Name):
+            if e.id in env and env[e.id] is not None:
+                r = affine(env[e.id], {k: v for k, v in env.items() if k != e.id})
+                if r is not None:
+                    return r
+            return (Fraction(0), Fraction(1), e.id)  # the variable: the number of commands sent
+        if isinstance(e, ast.BinOp) and isinstance(e.op, (ast.Add, ast.Mult)):
+            l, r = affine(e.left, env), affine(e.right, env)
+            if l is None or r is None:
+                return None
+            v = l[2] or r[2]
+            if l[2] and r[2] and l[2] != r[2]:
+                return None
+            if isinstance(e.op, ast.Add):
+                return (l[0] + r[0], l[1] + r[1], v)
+            if l[1] != 0 and r[1] != 0:
+                return None
+            return (l[0] * r[0], l[0] * r[1] + l[1] * r[0], v)
+        return None
+
+    def single_assignments(fdef):
+        env, seen = {}, {}
+        for n in ast.walk(fdef):
+            if isinstance(n, ast.Assign) and len(n.targets) == 1 and isinstance(n.targets[0], ast.Name):
+                seen[n.targets[0].id] = seen.get(n.targets[0].id, 0) + 1
+                env[n.targets[0].id] = n.value
+            elif isinstance(n, (ast.AugAssign, ast.AnnAssign)) and isinstance(getattr(n, "target", None), ast.Name):
+                seen[n.target.id] = seen.get(n.target.id, 0) + 2
+        return {k: v for k, v in env.items() if seen.get(k) == 1}
+
+    def helper_expr(call, owner_cls, module):
+        """the single returned expression of a one-argument helper (method of the class or module-level function),
+        with its parameter renamed to the call's argument"""
+        f = call.func
+        target = None
+        if isinstance(f, ast.Attribute) and isinstance(f.value, ast.Name) and f.value.id in ("self", "cls", owner_cls.__name__):
+            target = getattr(owner_cls, f.attr, None)
+        elif isinstance(f, ast.Name):
+            target = getattr(module, f.id, None)
+        elif isinstance(f, ast.Attribute) and isinstance(f.value, ast.Name):
+            target = getattr(getattr(module, f.value.id, None), f.attr, None)
+        target = getattr(target, "__func__", target)
+        if target is None or len(call.args) != 1 or call.keywords:
+            return None
+        try:
+            hd = ast.parse(textwrap.dedent(inspect.getsource(target))).body[0]
+        except Exception:  # noqa
+            return None
+        params = [a.arg for a in hd.args.args if a.arg not in ("self", "cls")]
+        rets = [n for n in ast.walk(hd) if isinstance(n, ast.Return)]
+        if len(params) != 1 or len(rets) != 1 or rets[0].value is None:
+            return None
+        env = single_assignments(hd)
+        env[params[0]] = call.args[0]
+        return rets[0].value, env
+
+    def wait_shape(fn, owner_cls, module):
+        fdef = ast.parse(textwrap.dedent(inspect.getsource(fn))).body[0]
+        env = single_assignments(fdef)
         found = []
-        for node in ast.walk(tree):
+        for node in ast.walk(fdef):
             if isinstance(node, ast.Call) and isinstance(node.func, ast.Attribute) and node.func.attr == "wait" and len(node.args) == 1:
                 e = node.args[0]
-                # 2 + n * (X.COMMAND_SPACING * 5)   (parentheses do not show in the AST)
-                if isinstance(e, ast.BinOp) and isinstance(e.op, ast.Add) and isinstance(e.left, ast.Constant) and isinstance(e.right, ast.BinOp) and isinstance(e.right.op, ast.Mult):
-                    base = e.left.value
-                    r = e.right
-                    n, k = r.left, r.right
-                    if isinstance(n, ast.Name) and isinstance(k, ast.BinOp) and isinstance(k.op, ast.Mult) and isinstance(k.left, ast.Attribute) and k.left.attr == "COMMAND_SPACING" and isinstance(k.right, ast.Constant):
-                        found.append((base, k.right.value))
-                        continue
-                found.append(None)
+                if isinstance(e, ast.Name) and e.id in env:
+                    e = env[e.id]
+                r = None
+                if isinstance(e, ast.Call):
+                    h = helper_expr(e, owner_cls, module)
+                    if h is not None:
+                        r = affine(h[0], {**env, **h[1]})
+                else:
+                    r = affine(e, {k: v for k, v in env.items() if not isinstance(v, ast.BinOp) or True})
+                if r is not None and r[2] is not None and r[0] > 0 and r[1] > 0:
+                    found.append((r[0], r[1]))
+                else:
+                    found.append(None)
         return found
 
-    for nm, fn in (("init", S.SubunitBase.initialize), ("detect", A.YncaApi._detect_available_subunits)):
-        ws = wait_shape(fn)
+    for nm, fn, oc, mod in (("init", S.SubunitBase.initialize, S.SubunitBase, S), ("detect", A.YncaApi._detect_available_subunits, A.YncaApi, A)):
+        ws = wait_shape(fn, oc, mod)
         if len(ws) == 1 and ws[0] is not None:
-            base, mult = ws[0]
-            per = Fraction(str(P.COMMAND_SPACING)) * mult
-            out.append(f"Definition p_{nm}_base : Z := {micros(base)}.")
+            base, per = ws[0]
+            out.append(f"Definition p_{nm}_base : Z := {int(base * 1_000_000)}.")
             out.append(f"Definition p_{nm}_per_cmd : Z := {int(per * 1_000_000)}.")
             out.append(f"Definition p_{nm}_wait_known : bool := true.")
         else:
